@@ -304,3 +304,19 @@ def shape_stats(c):
             rec(x, depth + 1)
     rec(root, 1)
     return st
+
+
+def has_lone_leaf_node(c):
+    """True if some NON-root interior node has exactly one child and that child is a leaf.
+    Such a node serialises its leaf inline when the leaf has no oid (see DESIGN F12)."""
+    if c[0] in ('E', 'I', 'B'):
+        return False
+
+    def rec(n, is_root):
+        if n[0] != 'T':
+            return False
+        ch = n[1][::2]
+        if not is_root and len(ch) == 1 and ch[0][0] == 'L':
+            return True
+        return any(rec(x, False) for x in ch)
+    return rec(c[0], True)
